@@ -35,7 +35,9 @@ func main() {
 	verif := flag.String("verif", "/verif", "verif root (evidence, known findings)")
 	replay := flag.String("replay", "", "re-evaluate the obligations of a violations file")
 	inv := flag.String("inventory", "", "print an inventory (development aid)")
+	evd := flag.String("evidence-dir", "", "write evidence and violation files here instead of <verif>/evidence (development aid)")
 	flag.Parse()
+	evidenceOverride = *evd
 	if t := os.Getenv("VERIF_TIER"); t == "quick" || t == "thorough" {
 		*tier = t
 	}
